@@ -232,7 +232,7 @@ func (r *Run) afterCloseQuiet(f *fsession, cs string, wait time.Duration) {
 func runC14(r *Run) {
 	installHooks()
 	hub.reset()
-	r.st.Rule = "Close injected at the states the property names — idle, k requests in flight, dispatcher busy in a handler with frames queued, reader holding an undelivered frame (tcp.before-add gate), a caller about to enqueue (conn.write.before-enqueue gate), two closers of one connection (reader inside Close when the user closes), writer blocked in the socket write (stalled peer), recovery backing off between failed attempts, recovery authenticating (peer silent), give-up about to fire / already fired — on TCP and WebSocket; oracles: Close returns within 1 s, exactly one close callback, no connection, frame or after-reconnect callback afterwards, no panic; the forced lifecycle actions are replayed by Model/Life.v and the final observables (callbacks, connections, open sockets, goroutines) compared. distinct = distinct request lines"
+	r.st.Rule = "Close injected at the states the property names — idle, k requests in flight, dispatcher busy in a handler with frames queued, reader holding an undelivered frame (tcp.before-add gate), a caller about to enqueue (conn.write.before-enqueue gate), two closers of one connection (reader inside Close when the user closes), writer blocked in the socket write (stalled peer), recovery backing off between failed attempts, recovery authenticating (peer silent; answer already queued behind a blocked handler), give-up about to fire / already fired — on TCP and WebSocket; oracles: Close returns within 1 s, exactly one close callback, no connection, frame or after-reconnect callback afterwards, no goroutine of the library left, no panic; the forced lifecycle actions are replayed by Model/Life.v and the final observables (callbacks, connections, open sockets, goroutines) compared. distinct = distinct request lines"
 	for _, trans := range []string{"tcp", "ws"} {
 		ws := trans == "ws"
 		// idle
@@ -494,7 +494,7 @@ func openFAuth() (*fsession, error) {
 func runC16(r *Run) {
 	installHooks()
 	hub.reset()
-	r.st.Rule = "N cycles (N = 5 and 20) of each kind — dial+close, dial+peer drop+recover, dial+server close packet, failed dial, stalled peer+close — on TCP and WebSocket; after quiescence the number of library goroutines serving connections and the sockets still open at the peer must not grow with N (3 per open connection, none after Close); the lifecycle actions are replayed by Model/Life.v. distinct = distinct request lines"
+	r.st.Rule = "N cycles (N = 5 and 20) of each kind — dial+close, dial+peer drop+recover, dial+server close packet, failed dial, stalled peer+close, Close during a running recovery, recovery whose first attempt is refused at the session step — on TCP and WebSocket; after quiescence the number of library goroutines serving connections and the sockets still open at the peer must not grow with N (3 per open connection, none after Close); the lifecycle actions are replayed by Model/Life.v. distinct = distinct request lines"
 	ns := []int{5}
 	if r.thorough() {
 		ns = []int{5, 20}
@@ -689,7 +689,7 @@ func (r *Run) boundedDo(f *fsession, ch chan doResult, what string) doResult {
 func runC06(r *Run) {
 	installHooks()
 	hub.reset()
-	r.st.Rule = "peer scripts over {silence, drop after every byte k of the response frame, server close packet, garbage, refused dials, stalled peer that stops reading (write queue fills), WebSocket re-dial whose upgrade is never answered} x phases {auth, steady state, reconnect} x calls issued before, during and after the fault, on TCP (and WebSocket where expressible): every request call must return a response or an error within request+dial+auth timeouts + slack and never panic (watchdog, recover(), goroutine dump as replay); waiter-sweep and nil-conn regressions are scripted; selected histories are replayed by Model/Waiters.v and Model/Life.v. distinct = distinct request lines"
+	r.st.Rule = "peer scripts over {silence, drop after every byte k of the response frame, server close packet, garbage, refused dials, stalled peer that stops reading (write queue fills; TCP and WebSocket), WebSocket re-dial whose upgrade is never answered} x phases {auth, steady state, reconnect} x calls issued before, during and after the fault, on TCP (and WebSocket where expressible): every request call must return a response or an error within request+dial+auth timeouts + slack and never panic (watchdog, recover(), goroutine dump as replay); waiter-sweep and nil-conn regressions are scripted; selected histories are replayed by Model/Waiters.v and Model/Life.v. distinct = distinct request lines"
 	// silence
 	for _, trans := range []string{"tcp", "ws"} {
 		if f, err := openF(trans); err == nil {
